@@ -98,7 +98,7 @@ def signature(case, t, at, why):
 
 def judge_alloc(ctx, cases, traces):
     slim = [dict(id=t['id'], part=t['part'], ev=t['ev']) for t in traces]
-    verdicts = ctx.validate('TraceAlloc', 'TraceAlloc.cfg', slim, nproc=8)
+    verdicts = ctx.validate('TraceAlloc', 'TraceAlloc.cfg', slim, nproc=8 if len(slim) > 100000 else 4)
     nviol = 0
     for t in traces:
         case = cases[t['case']]
@@ -146,7 +146,8 @@ def behaviour_to_case(b):
     return case, exp
 
 
-def replay_model_behaviours(ctx, nsim, depth):
+def model_behaviours(ctx, nsim, depth):
+    """-> (cases, expectations) from TLC -simulate runs of the implementation-shaped model"""
     from harness import tlc
     behs, r = tlc.simulate_behaviours('AllocImpl', 'AllocImpl_sim.cfg', ctx.work, num=nsim, depth=depth,
                                       seed=ctx.seed + 1, timeout=600)
@@ -160,15 +161,22 @@ def replay_model_behaviours(ctx, nsim, depth):
         exps.append(exp)
     if not cases:
         raise MachineryError('no behaviours simulated')
-    traces = run_cases(ctx, cases)
+    return cases, exps
+
+
+def compare_with_model(ctx, cases, traces, exps, first):
+    """state of the real allocator after every call vs the L2 state TLC printed (drift only; L1 judges the traces)"""
     ndrift = 0
     multi = 0
     for t in traces:
-        exp = exps[t['case']]
+        if t['case'] < first:
+            continue
+        exp = exps[t['case'] - first]
+        case = cases[t['case']]
         multi += 1 if t['points'] else 0
         if t['choices'][1]:
             ndrift += 1
-            ctx.note_drift('replay: TLC picked a block the real _find_available did not offer: %s' % cases[t['case']]['hist'])
+            ctx.note_drift('replay: TLC picked a block the real _find_available did not offer: %s' % case['hist'])
             continue
         for i, (ev, pj, ex) in enumerate(zip(t['ev'], t['proj'], exp)):
             got = dict(ret=ev['r'], blocks=pj.get('blocks'), top=pj.get('top'), freed=pj.get('freed'),
@@ -176,20 +184,16 @@ def replay_model_behaviours(ctx, nsim, depth):
             if got != ex:
                 ndrift += 1
                 ctx.note_drift('replay step %d of %s on %s: model %s, code %s'
-                               % (i + 1, cases[t['case']]['hist'][:i + 1], [cases[t['case']][k] for k in ('size', 'pos', 'off')],
-                                  ex, got))
+                               % (i + 1, case['hist'][:i + 1], [case[k] for k in ('size', 'pos', 'off')], ex, got))
                 break
             used = sorted([b[0], b[1]] for b in pj['blocks'] if b[2])
             if pj.get('used') != used:
                 ndrift += 1
                 ctx.note_drift('blocks() disagrees with the used blocks of _array: %s vs %s' % (pj.get('used'), used))
                 break
-    nv = judge_alloc(ctx, cases, traces)
-    ctx.cov['spec_behaviours_replayed'] = len(cases)
+    ctx.cov['spec_behaviours_replayed'] = len(exps)
     ctx.cov['spec_behaviours_with_tiebreak'] = multi
     ctx.cov['spec_behaviours_state_mismatch'] = ndrift
-    ctx.cov['evaluations'] += len(cases)
-    return len(cases), ndrift, nv
 
 
 # ----------------------------------------------------------------------------- node ids
@@ -210,7 +214,7 @@ def id_cases(thorough):
 
 def judge_ids(ctx, cases, traces):
     slim = [dict(id=t['id'], client=t['client'], init=t['init'], ids=t['ids'], exc=t['exc']) for t in traces]
-    verdicts = ctx.validate('TraceNodeIds', 'TraceNodeIds.cfg', slim, nproc=4)
+    verdicts = ctx.validate('TraceNodeIds', 'TraceNodeIds.cfg', slim, nproc=1)
     for t in traces:
         case = cases[t['case']]
         if case['start'] + case['count'] > M26:
@@ -236,8 +240,9 @@ def run(ctx):
     r = ctx.model_check('AllocImpl', 'AllocImpl.cfg', require_cover=('Alloc', 'Free'), timeout=900,
                         label='depth-bounded, history variables, StepRefines as invariant')
     ctx.expect_ok(r, 'AllocImpl refines Alloc (bounded)')
+    # (thorough: TLC's -coverage triples the time of the big run; the two runs above are the vacuity guard)
     r = ctx.model_check('AllocImpl', 'AllocImpl%s.cfg' % ('_thorough' if thorough else '_full'),
-                        require_cover=('Alloc', 'Free'), timeout=1500,
+                        require_cover=() if thorough else ('Alloc', 'Free'), timeout=1500,
                         label='complete reachable state space (VIEW = implementation state)')
     ctx.expect_ok(r, 'AllocImpl refines Alloc (complete)')
     ctx.cov['impl_model_complete_states'] = r.distinct
@@ -269,9 +274,8 @@ def run(ctx):
         srv(('buf',), (1,), histories(6, 3))
     else:
         depth, sdepth, fdepth = 6, 5, 4
-        raw([(5, 1, 5)], histories(6, 3))
-        raw([(6, 0, 12)], histories(6, 2))
-        raw([(6, 2, 0)], histories(5, 3))
+        raw([(5, 1, 5), (6, 0, 12)], histories(6, 2))
+        raw([(5, 1, 5), (6, 2, 0)], histories(5, 3))
         raw([(5, 1, 5)], histories(5, 2, free_none=True))
         srv(SPACES, (0, 1, 3), histories(4, 3))
         srv(('abus',), (0,), histories(5, 3))
@@ -280,7 +284,7 @@ def run(ctx):
     # fragmentation family: fill the partition with 1-blocks, then every sequence of frees / re-allocations
     # (this is where several free blocks of one size coexist, i.e. where the tie-breaks are)
     import itertools
-    for size, pos, off in ([(6, 0, 12), (6, 0, 0), (7, 1, 7)] if thorough else [(6, 0, 12)]):
+    for size, pos, off in ([(6, 0, 12), (7, 1, 7)] if thorough else [(6, 0, 12)]):
         n = size - pos
         al = [['f', k] for k in range(n)] + [['a', 1], ['a', 2], ['a', 3]]
         pre = [['a', 1]] * n
@@ -302,8 +306,14 @@ def run(ctx):
         cases.append(dict(kind='srv', what=rnd.choice(SPACES), client=client, logins=4, total=4 * per + rnd.randint(0, 3),
                           reserved=rnd.choice([0, 0, 1, 2]), tiebreak='random', seed=rnd.randrange(1 << 30),
                           hist=random_history(rnd, rnd.randint(20, 80), 5)))
+    # S->C: behaviours of the implementation-shaped model, replayed on the real allocator with TLC's tie-breaks
+    nsim = 3000 if thorough else 300
+    first_sim = len(cases)
+    sim_cases, sim_exps = model_behaviours(ctx, nsim, 40)
+    cases += sim_cases
     traces = run_cases(ctx, cases)
     judge_alloc(ctx, cases, traces)
+    compare_with_model(ctx, cases, traces, sim_exps, first_sim)
     ctx.cov['evaluations'] += len(traces)
     ctx.cov['exhaustive_depth'] = depth
     ctx.cov['histories'] = len(cases)
@@ -313,12 +323,9 @@ def run(ctx):
         if t['points'] and len(t['ev']) <= 8:
             ctx.sample(dict(case=cases[t['case']], choices=t['choices'], observed=[[e['n'], e['x'], e['r']] for e in t['ev']]), limit=2)
             break
-    ctx.sample(dict(case={k: v for k, v in cases[-1].items() if k != 'hist'}, history=cases[-1]['hist'][:14],
-                    observed=[[e['n'], e['x'], e['r']] for e in traces[-1]['ev'][:14]]))
-
-    # 3. S->C: behaviours of the implementation-shaped model replayed on the real allocator
-    nsim = 3000 if thorough else 300
-    replay_model_behaviours(ctx, nsim, 40)
+    tl = [t for t in traces if t['case'] == first_sim - 1][0]
+    ctx.sample(dict(case={k: v for k, v in cases[first_sim - 1].items() if k != 'hist'}, history=cases[first_sim - 1]['hist'][:14],
+                    observed=[[e['n'], e['x'], e['r']] for e in tl['ev'][:14]]))
 
     # 4. node ids, real constants, across the wrap-around
     ic = id_cases(thorough)
